@@ -27,7 +27,8 @@ def decoded(ty, elems, k):
 
 
 # ----------------------------------------------------------------------------- random logical tables
-NAMES = [b"Alpha", b"Beta", b"Gamma", b"Unit", b"x", b"Description", b"K\xc3\xa9y", b"n" * 40, b"Format", b"Z9"]
+NAMES = [b"Alpha", b"Beta", b"Gamma", b"Unit", b"x", b"Description", b"K\xc3\xa9y", b"n" * 40, b"Format", b"Z9",
+         b"unit", b"UNIT", b"X", b"alpha", b"Unit "]        # names that differ only in case or by a trailing blank are different names
 
 
 def rand_md_value(rng, ty):
@@ -316,8 +317,16 @@ def encode_table(t, layouts=None, be=False, name_order=None, unused=(), with_end
                 seen.add(nm); names.append((nm, ty, dflt))
     for u in unused:
         names.append(u)
-    for k in dup_names:                      # a foreign writer listing a name twice (same type, same default)
-        if names: names.append(names[k % len(names)])
+    twins = {}                               # index of a duplicate entry -> index of the original
+    for k in dup_names:                      # a foreign writer listing a name twice (same type; same default, or one with and one without)
+        if not names: break
+        if isinstance(k, tuple): k, mode, newd = k
+        else: mode, newd = "same", None
+        j = k % len(names)
+        nm_, ty_, d_ = names[j]
+        if mode == "flip": d_ = None if d_ is not None else newd(ty_)
+        twins[len(names)] = j
+        names.append((nm_, ty_, d_))
     if name_order:
         names = [names[i] for i in name_order]
     e.i32(len(names), "namecount")
@@ -325,10 +334,17 @@ def encode_table(t, layouts=None, be=False, name_order=None, unused=(), with_end
         e.string(nm, "cmeta-name"); e.u8(ty, "mdtype", "cmeta")
         if dflt is None: e.u8(0, "dflag")
         else: e.u8(1, "dflag"); e.obj1(ty, dflt, "cmeta-default")
-    for ents in percol:
+    split = bool(twins) and any(isinstance(k, tuple) for k in dup_names)
+    pos = {j: i for i, j in enumerate(name_order)} if name_order else None
+    for ci, ents in enumerate(percol):
         d = {nm: (ty, val) for (nm, ty, val, dflt) in ents}
-        for (nm, ty, dflt) in names:
-            if nm in d: e.u8(1, "cflag"); e.obj1(ty, d[nm][1], "cmeta-value")
+        for j, (nm, ty, dflt) in enumerate(names):
+            use = nm in d
+            if use and split and not name_order:
+                # "flip" duplicates: even columns carry the value under the original entry, odd ones under its twin
+                if j in twins: use = ci % 2 == 1
+                elif j in twins.values(): use = ci % 2 == 0
+            if use: e.u8(1, "cflag"); e.obj1(ty, d[nm][1], "cmeta-value")
             else: e.u8(0, "cflag")
     for si, sl in enumerate(t["slices"]):
         e.sec(3, "slice"); e.i32(len(sl), "slicecols")
